@@ -1,0 +1,10 @@
+//go:build verif
+
+// Contracts for package common, read by /verif/govc (comment-only file).
+
+package common
+
+//@ func AddrToDnsType
+//@   vpure
+//@   ensures addr.Is4() ==> result == 1
+//@   ensures !addr.Is4() ==> result == 28
